@@ -12,7 +12,6 @@ SPEC = {
     ],
     'assumptions': [
         'universe: int, string, pointers, slices, string-keyed maps, structs with plain exported fields, interface{} holding nil / int64 / string; stream values in interface positions are scalars',
-        'full-strength merge/keep/idempotence statements for nested types are not proved in Coq: they are checked by the correspondence (model re-run on every observed case, including the second decode) and by the direct oracle on the implementation',
         'streams that are ill-typed for the destination (e.g. a number for a string held in an interface) are skipped: driver leniency is C01/C07 business',
     ],
     'trusted_extra': ['modelled, not verified: decodeValue/kSlice/kMap/kStruct/kStructField/kInterface (decode.go), decSetNonNilRV2Zero (decode.base.go), DecSliceXY/DecMapStringXL (fastpath.go.tmpl), the decode type switch'],
@@ -24,6 +23,6 @@ def main(chk):
 MANIFEST = {
     'category': 'proof',
     'technique': 'Coq: specification merge from the Decode documentation, three models (reflection, generated fast path, builtin switch), theorems on nil/paths/idempotence with refutations for the two defects found + vm_compute correspondence (first and second decode) + direct merge/idempotence oracle over 5 formats, with and without codec.notfastpath',
-    'text': 'C19_nil / C19_nil_impl: a stream nil gives the zero value for every type, previous content and option vector in all three implementations (reflection, generated fast path, builtin switch) and in the spec; C19_nil_field + C19_nil_field_refuted (F19-1: non-nil pointer struct field keeps the pointer); C19_paths_slice / C19_paths_map: fast path = reflection path for slices and maps of scalars, all lengths; C19_paths_refuted (F19-2: []interface{} fast path ignores SliceElementReset); C19_merge_partial (scalars) + C19_merge_refuted; C19_idem_partial, C19_idem_nil. Nested merge / keep / idempotence are tied by re-running the model on every observed first and second decode and by a merge oracle written from the Decode docs, five formats, with and without codec.notfastpath.',
-    'note': 'Repaired through the check: F19-3 (kSlice merged into uncleared memory / stale capacity beyond the original length). Recorded: F19-1, F19-2. Partial: full-strength C19_merge/C19_keep/C19_idem for nested types are not proved in Coq.',
+    'text': 'For ALL types of the universe (int, string, pointer, slice, string-keyed map, struct, interface{} holding nil/int64/string), all destinations (no well-typedness assumed), all stream items, all option vectors: C19_merge dec_impl = the documentation-derived merge under two boolean guards (nil_ok: no stream nil aimed at a pointer-typed struct field; paths_guard: not fastpath+SliceElementReset+[]interface{}) with C19_merge_refuted / C19_guards_tight; C19_impl_is_reflection; C19_nil / C19_nil_impl / C19_nil_field(+_refuted, F19-1); C19_keep_struct / C19_keep_struct_array / C19_keep_map (absent = untouched at every struct/map reached); C19_paths (fast path = reflection path of the same build on every covered type, unconditionally), C19_paths_notfastpath (+ C19_paths_refuted, F19-2); C19_idem (second decode of the same item returns the result; side condition: no stream map repeats a key). Proved by induction on the item tree (item_ind\') over first-class container loops (C19/Loops.v). Tied by re-running dec_impl on every observed first and second decode and by a merge oracle over five formats with and without codec.notfastpath.',
+    'note': 'Repaired through the check: F19-3. Recorded: F19-1, F19-2. nil_ok is a guard on (type, stream) only, so it also excludes a nil aimed at a pointer field that currently holds nil (harmless case); C19_idem assumes distinct keys per stream map. Outside the universe: arrays, non-string map keys, time, bytes, chan, interface{} holding containers (correspondence not generated for them).',
 }
